@@ -238,16 +238,25 @@ func (e *env) midBlock(o *vh.TxObs) {
 	// the same request as a direct keeper call on a throw-away context of the committed height
 	var direct []byte
 	if q.ethReq != nil {
-		qctx := e.q.QueryCtx()
-		if q.Kind == "evm/EthCall" {
-			if out, err := e.q.App.EvmKeeper.EthCall(sdk.WrapSDKContext(qctx), q.ethReq); err == nil {
-				direct, _ = out.Marshal()
+		func() {
+			// called without BaseApp's query recover(): a keeper panic on hostile arguments (e.g. "Int overflow" for a
+			// 2^256-scale value) is an error answer on a node, not a failure of this monitor
+			defer func() {
+				if p := recover(); p != nil {
+					run.Count("mid_block_direct_keeper_calls_panicked", 1)
+				}
+			}()
+			qctx := e.q.QueryCtx()
+			if q.Kind == "evm/EthCall" {
+				if out, err := e.q.App.EvmKeeper.EthCall(sdk.WrapSDKContext(qctx), q.ethReq); err == nil {
+					direct, _ = out.Marshal()
+				}
+			} else {
+				if out, err := e.q.App.EvmKeeper.EstimateGas(sdk.WrapSDKContext(qctx), q.ethReq); err == nil {
+					direct, _ = out.Marshal()
+				}
 			}
-		} else {
-			if out, err := e.q.App.EvmKeeper.EstimateGas(sdk.WrapSDKContext(qctx), q.ethReq); err == nil {
-				direct, _ = out.Marshal()
-			}
-		}
+		}()
 		run.Count("mid_block_direct_keeper_calls", 1)
 	}
 	_ = direct
